@@ -169,9 +169,8 @@ Section Agree.
 
   (* ---------- the translator state while only to-one joins from the root have been made ---------- *)
   Definition inv (st : jm) : Prop :=
-    (forall src a i, lookup_path (j_paths st) src a = Some i ->
-        (1 <= i)%nat /\ exists tgt, nth_error (j_joins st) (pred i) = Some (JRel src a tgt)) /\
-    j_loose st = [] /\ j_invalid st = false.
+    forall src a i, lookup_path (j_paths st) src a = Some i ->
+        (1 <= i)%nat /\ exists tgt, nth_error (j_joins st) (pred i) = Some (JRel src a tgt).
 
   Variable o : obj.                                 (* the object of the root row *)
   Definition renv (st : jm) : option (list row) := build_env [row_of o] (j_joins st).
@@ -186,11 +185,11 @@ Section Agree.
     alias_for st cur a tgt = (i, st') ->
     inv st' /\ exists more, renv st' = Some (env ++ more) /\ nth_error (env ++ more) i = Some (row_of o').
   Proof.
-    intros [Hp [Hl Hi]] He Hc Ha Hf Ht. unfold alias_for.
+    intros Hp He Hc Ha Hf Ht. unfold alias_for.
     assert (Hcol : ecol env cur a = VInt k).
     { rewrite (ecol_some _ _ _ _ Hc), col_row_of, Ha. reflexivity. }
     destruct (lookup_path (j_paths st) cur a) as [i0|] eqn:El.
-    - intros H. injection H as <- <-. split; [exact (conj Hp (conj Hl Hi))|].
+    - intros H. injection H as <- <-. split; [exact Hp|].
       exists []. rewrite app_nil_r. split; auto.
       destruct (Hp _ _ _ El) as [Hge [tgt' Hn]].
       destruct (build_env_nth _ _ _ _ _ _ _ He Hn) as [k' [o'' [H1 [H2 H3]]]].
@@ -200,7 +199,7 @@ Section Agree.
       assert (Hlen : length env = S (length (j_joins st))).
       { destruct (build_env_prefix _ _ _ He) as [more [-> Hm]]. simpl. now rewrite Hm. }
       split.
-      + split; [|split]; cbn [j_paths j_joins j_loose j_invalid].
+      + unfold inv; cbn [j_paths j_joins].
         * intros src b i. rewrite lookup_path_cons.
           destruct (Nat.eqb cur src && (b =? a)) eqn:E.
           -- intros H. injection H as <-. apply andb_true_iff in E. destruct E as [E1 E2].
@@ -208,8 +207,6 @@ Section Agree.
              exists tgt. cbn [pred]. rewrite nth_error_app2 by lia. now rewrite Nat.sub_diag.
           -- intros H. destruct (Hp _ _ _ H) as [Hge [t Hn]]. split; auto. exists t.
              rewrite nth_error_app1; auto. eapply nth_some_lt; eauto.
-        * rewrite Hl. reflexivity.
-        * rewrite Hi, Hl. reflexivity.
       + exists [row_of o']. unfold renv in *. cbn [j_joins]. rewrite build_env_app, He. simpl.
         rewrite Hcol, Hf, Ht. split; auto.
         change (nth_error (env ++ [row_of o']) (S (length (j_joins st))) = Some (row_of o')).
@@ -251,24 +248,30 @@ Section Agree.
   Lemma renv_root st env : renv st = Some env -> nth_error env 0 = Some (row_of o).
   Proof. intros H. destruct (build_env_prefix _ _ _ H) as [more [-> _]]. reflexivity. Qed.
 
+  Lemma shape_attr v ch : operand_shape sc sel root (OAttr v ch) = true ->
+    (v =? sel) = true /\ chain_kind sc root ch = Some FScalar.
+  Proof.
+    simpl. rewrite andb_true_iff. intros [H1 H2]. split; auto.
+    destruct (chain_kind sc root ch) as [[|]|]; try discriminate. reflexivity.
+  Qed.
+
   Lemma toperand_ok x : forall st env v,
-    inv st -> renv st = Some env -> operand_shape sel x = true -> operand_data sc w sel root o x = Some v ->
+    inv st -> renv st = Some env -> operand_shape sc sel root x = true -> operand_data sc w sel root o x = Some v ->
     exists e st' more,
-      toperand sc vars root st x = ROk e st' /\ inv st' /\ renv st' = Some (env ++ more) /\
+      toperand sc vars sel root st x = ROk e st' /\ inv st' /\ renv st' = Some (env ++ more) /\
       (forall more', eval_sx ((env ++ more) ++ more') e = v) /\ eval_operand w bnd x = Ok v /\
       scalar_val v = true /\ sx_bad e = false /\ e <> SConst VNull.
   Proof.
-    intros st env v Hinv He Hs Hd. destruct x as [x ch| c | |]; simpl in Hs; try discriminate.
-    - destruct ch as [|a0 ch0]; try discriminate. cbn [operand_data] in Hd. rewrite Hs in Hd.
-      unfold toperand, tattr, vars, bnd. simpl assoc. rewrite Hs.
-      unfold base_inst. rewrite Z.eqb_refl.
+    intros st env v Hinv He Hs Hd. destruct x as [x ch| c | |]; try discriminate.
+    - destruct (shape_attr _ _ Hs) as [Hv _]. cbn [operand_data] in Hd. rewrite Hv in Hd.
+      unfold toperand, tattr, bnd. rewrite Hv.
       destruct (twalk_ok _ _ _ _ _ _ _ Hinv He (renv_root _ _ He) Hd)
         as [i [a [st' [more [H1 [H2 [H3 [H4 [H5 [H6 H7]]]]]]]]]].
       exists (SCol i a), st', more. rewrite H1.
       split; [reflexivity|]. split; [assumption|]. split; [assumption|].
       split; [intros more'; simpl; rewrite ecol_app; auto|].
-      split; [simpl; rewrite Hs; exact H6|]. split; [assumption|]. split; [reflexivity|discriminate].
-    - simpl in Hd. destruct (scalar_val c) eqn:Es; try discriminate. injection Hd as <-.
+      split; [simpl; rewrite Hv; exact H6|]. split; [assumption|]. split; [reflexivity|discriminate].
+    - simpl in Hs. simpl in Hd. destruct (scalar_val c) eqn:Es; try discriminate. injection Hd as <-.
       exists (SConst c), st, []. rewrite app_nil_r.
       split; [reflexivity|]. split; [assumption|]. split; [assumption|].
       split; [reflexivity|]. split; [reflexivity|]. split; [assumption|].
@@ -276,14 +279,23 @@ Section Agree.
   Qed.
 
   Lemma teqjoin_none st op v ch r :
-    operand_shape sel (OAttr v ch) = true -> operand_shape sel r = true ->
+    operand_shape sc sel root (OAttr v ch) = true -> operand_shape sc sel root r = true ->
     teqjoin sc vars root st op (OAttr v ch) r = None.
   Proof.
-    intros H1 H2. destruct ch; try discriminate. simpl in H1.
+    intros H1 H2. destruct (shape_attr _ _ H1) as [E1 _].
     destruct op; simpl; auto. destruct r as [v2 ch2| | |]; auto.
-    destruct ch2; try discriminate. simpl in H2.
-    apply Z.eqb_eq in H1, H2. subst. now rewrite Z.eqb_refl.
+    destruct (shape_attr _ _ H2) as [E2 _].
+    apply Z.eqb_eq in E1, E2. subst. now rewrite Z.eqb_refl.
   Qed.
+
+  Lemma shape_not_rel x : operand_shape sc sel root x = true -> is_rel sc vars x = false.
+  Proof.
+    destruct x as [v ch| | |]; auto. intros H. destruct (shape_attr _ _ H) as [E1 E2].
+    apply Z.eqb_eq in E1. subst v. unfold is_rel, vars. simpl assoc. now rewrite Z.eqb_refl, E2.
+  Qed.
+  Lemma rel_check_shape b l r :
+    operand_shape sc sel root l = true -> operand_shape sc sel root r = true -> rel_check sc vars b l r = true.
+  Proof. intros H1 H2. unfold rel_check. now rewrite (shape_not_rel _ H1), (shape_not_rel _ H2). Qed.
 
   Lemma mk_cmp_some op a b : b <> SConst VNull -> mk_cmp op a b = Some (SCmp op a b).
   Proof. intros H. destruct b as [|[]]; try reflexivity. now destruct H. Qed.
@@ -295,9 +307,9 @@ Section Agree.
   Qed.
 
   Lemma tcond_ok c : forall st env,
-    inv st -> renv st = Some env -> cond_shape sel c = true -> cond_ok sc w sel root o c = true ->
+    inv st -> renv st = Some env -> cond_shape sc sel root c = true -> cond_ok sc w sel root o c = true ->
     exists p st' more b,
-      tcond sc vars root st c = ROk (Some p) st' /\ inv st' /\ renv st' = Some (env ++ more) /\
+      tcond sc vars sel root st c = ROk (Some p) st' /\ inv st' /\ renv st' = Some (env ++ more) /\
       eval_cond w bnd c = Ok b /\ (forall more', eval_pred ((env ++ more) ++ more') p = tv_of_bool b) /\
       pred_bad p = false.
   Proof.
@@ -312,7 +324,8 @@ Section Agree.
       destruct (toperand_ok _ _ _ _ I1 R1 Hs2 Eb) as [e2 [st2 [m2 [T2 [I2 [R2 [V2 [P2 [S2 [B2 N2]]]]]]]]]].
       destruct (cmp_agree w op a b Hd) as [C1 C2].
       exists (SCmp op e1 e2), st2, (m1 ++ m2), (tv_true (sql_cmp op a b)).
-      cbn [tcond]. unfold tcmp. rewrite (teqjoin_none _ _ _ _ _ Hs1 Hs2), T1, T2, (mk_cmp_some _ _ _ N2).
+      cbn [tcond]. unfold tcmp. rewrite (teqjoin_none _ _ _ _ _ Hs1 Hs2), (rel_check_shape _ _ _ Hs1 Hs2). cbn [negb].
+      rewrite T1, T2, (mk_cmp_some _ _ _ N2).
       rewrite app_assoc.
       split; [reflexivity|]. split; [assumption|]. split; [assumption|].
       split; [cbn [eval_cond]; rewrite P1, P2; exact C1|].
@@ -324,7 +337,7 @@ Section Agree.
       destruct (operand_data sc w sel root o (OAttr v ch)) as [a|] eqn:Ea; try discriminate.
       destruct (toperand_ok _ _ _ _ Hinv He Hs1 Ea) as [e1 [st1 [m1 [T1 [I1 [R1 [V1 [P1 [S1 [B1 N1]]]]]]]]]].
       exists (SIn e1 cs), st1, m1, (existsb (fun c => val_eq eq_fuel w a c) cs).
-      cbn [tcond]. unfold tcontains. cbn [toperand] in T1. rewrite T1.
+      cbn [tcond]. unfold tcontains. rewrite (shape_not_rel _ Hs1). cbn [is_rel orb]. cbn [toperand] in T1. rewrite T1.
       split; [reflexivity|]. split; [assumption|]. split; [assumption|].
       split; [cbn [eval_cond eval_operand]; cbn [eval_operand] in P1; rewrite P1; reflexivity|].
       split; [|simpl; now rewrite B1, unbindable_scalars].
@@ -351,7 +364,7 @@ Section Agree.
 End Agree.
 
 Lemma inv_jm0 : inv jm0.
-Proof. split; [|split]; try reflexivity. intros src a i H. discriminate. Qed.
+Proof. intros src a i H. discriminate. Qed.
 
 Lemma collect_single (f : binding -> res bool) (g : obj -> bool) v (l : list obj) :
   (forall o, In o l -> f [(v, o)] = Ok (g o)) ->
@@ -384,23 +397,23 @@ Proof.
   repeat (apply andb_true_iff in Hf; destruct Hf as [Hf ?]).
   rename H into Hall, H0 into Hnd, H1 into Hshape. apply Z.eqb_eq in Hf.
   unfold translate in Ht. rewrite Ev0, Ec, <- Hf in Ht. simpl assoc in Ht. rewrite Z.eqb_refl in Ht.
-  destruct (tcond sc [(v0, root0)] root0 jm0 c) as [p st| | |] eqn:Et; try discriminate.
+  destruct (tcond sc [(v0, root0)] v0 root0 jm0 c) as [p st| | |] eqn:Et; try discriminate.
   injection Ht as <-.
   rewrite forallb_forall in Hall.
   assert (Hobj : forall o, In o (instances sc w root0) ->
             exists p0 more b, p = Some p0 /\ build_env sc w [row_of o] (j_joins st) = Some ([row_of o] ++ more) /\
                               eval_cond w [(v0, o)] c = Ok b /\ eval_pred ([row_of o] ++ more) p0 = tv_of_bool b /\
-                              pred_bad p0 = false /\ j_invalid st = false).
+                              pred_bad p0 = false).
   { intros o Ho.
     destruct (tcond_ok sc w o v0 root0 c jm0 [row_of o] inv_jm0 eq_refl Hshape (Hall o Ho))
       as [p0 [st' [more [b [T [I [R [E [V B]]]]]]]]].
     rewrite Et in T. injection T as -> ->. exists p0, more, b.
-    repeat split; auto. specialize (V []). now rewrite app_nil_r in V. apply I. }
+    repeat split; auto. specialize (V []). now rewrite app_nil_r in V. }
   destruct (instances sc w root0) as [|o1 rest] eqn:Ei; [now destruct Hne|]. rewrite <- Ei in *.
-  destruct (Hobj o1) as [p0 [_ [_ [-> [_ [_ [_ [Hbad Hinvd]]]]]]]]; [rewrite Ei; now left|].
+  destruct (Hobj o1) as [p0 [_ [_ [-> [_ [_ [_ Hbad]]]]]]]; [rewrite Ei; now left|].
   set (g := fun o => match eval_cond w [(v0, o)] c with Ok b => b | Err _ => false end).
   set (envf := fun o => match build_env sc w [row_of o] (j_joins st) with Some e => e | None => [] end).
-  unfold sem_res, sem. cbn [s_invalid s_where s_joins s_root]. rewrite Hinvd, Hbad. cbn [orb].
+  unfold sem_res, sem. cbn [s_invalid s_where s_joins s_root]. rewrite Hbad. cbn [orb].
   unfold answers. rewrite Ev0, Ec. cbn [bindings map].
   rewrite <- Hf. rewrite (collect_single _ g).
   - f_equal. unfold encode at 2. rewrite map_map.
@@ -421,66 +434,57 @@ Proof.
 Qed.
 
 (* ---------- the selected type has no instance: the statement still executes, both sides are empty ---------- *)
-Definition safe (st : jm) : Prop := j_loose st = [] /\ j_invalid st = false.
-
-Lemma alias_for_safe st cur a tgt i st' : safe st -> alias_for st cur a tgt = (i, st') -> safe st'.
-Proof.
-  intros [H1 H2]. unfold alias_for. destruct (lookup_path (j_paths st) cur a).
-  - intros H. injection H as <- <-. now split.
-  - intros H. injection H as <- <-. split; simpl; rewrite H1; simpl; auto. now rewrite H2.
-Qed.
 Lemma twalk_safe sc chain : forall st cur ccls e st',
-  safe st -> twalk sc st cur ccls chain = ROk e st' -> safe st' /\ sx_bad e = false.
+  twalk sc st cur ccls chain = ROk e st' -> sx_bad e = false.
 Proof.
-  induction chain as [|a rest IH]; intros st cur ccls e st' Hs H; simpl in H; try discriminate.
+  induction chain as [|a rest IH]; intros st cur ccls e st' H; simpl in H; try discriminate.
   destruct (field_kind sc ccls a) as [[|tgt]|]; try discriminate.
-  - destruct rest; try discriminate. injection H as <- <-. now split.
+  - destruct rest; try discriminate. now injection H as <- <-.
   - destruct rest as [|b rest'].
-    + injection H as <- <-. now split.
-    + destruct (alias_for st cur a tgt) as [i st1] eqn:E. eapply IH; [|exact H]. eapply alias_for_safe; eauto.
+    + now injection H as <- <-.
+    + destruct (alias_for st cur a tgt) as [i st1] eqn:E. eapply IH; exact H.
 Qed.
 Lemma toperand_safe sc sel root x st e st' :
-  safe st -> operand_shape sel x = true -> toperand sc [(sel, root)] root st x = ROk e st' ->
-  safe st' /\ sx_bad e = false.
+  operand_shape sc sel root x = true -> toperand sc [(sel, root)] sel root st x = ROk e st' -> sx_bad e = false.
 Proof.
-  intros Hs Hx H. destruct x as [v ch|c| |]; simpl in Hx; try discriminate.
-  - destruct ch; try discriminate. unfold toperand, tattr in H. simpl assoc in H. rewrite Hx in H.
-    unfold base_inst in H. rewrite Z.eqb_refl in H. eapply twalk_safe; eauto.
-  - simpl in H. injection H as <- <-. split; auto. now destruct c.
+  intros Hx H. destruct x as [v ch|c| |]; try discriminate.
+  - unfold toperand, tattr in H. destruct (v =? sel); try discriminate. eapply twalk_safe; eauto.
+  - simpl in H, Hx. injection H as <- <-. now destruct c.
 Qed.
 Lemma tcond_safe sc sel root c : forall st p st',
-  safe st -> cond_shape sel c = true -> tcond sc [(sel, root)] root st c = ROk p st' ->
-  safe st' /\ forall p0, p = Some p0 -> pred_bad p0 = false.
+  cond_shape sc sel root c = true -> tcond sc [(sel, root)] sel root st c = ROk p st' ->
+  forall p0, p = Some p0 -> pred_bad p0 = false.
 Proof.
-  induction c as [op l r|ct it|p1 IH1 q1 IH2|p1 IH1 q1 IH2|p1 _|x]; intros st p st' Hs Hc H;
+  induction c as [op l r|ct it|p1 IH1 q1 IH2|p1 IH1 q1 IH2|p1 _|x]; intros st p st' Hc H;
     cbn [cond_shape] in Hc; try discriminate.
   - destruct l as [v ch| | |]; try discriminate. apply andb_true_iff in Hc. destruct Hc as [Hc1 Hc2].
     cbn [tcond] in H. unfold tcmp in H. rewrite (teqjoin_none sc sel root st op v ch r Hc1 Hc2) in H.
-    destruct (toperand sc [(sel, root)] root st (OAttr v ch)) as [a st1| | |] eqn:E1; try discriminate.
-    destruct (toperand sc [(sel, root)] root st1 r) as [b st2| | |] eqn:E2; try discriminate.
-    destruct (toperand_safe _ _ _ _ _ _ _ Hs Hc1 E1) as [S1 B1].
-    destruct (toperand_safe _ _ _ _ _ _ _ S1 Hc2 E2) as [S2 B2].
-    destruct (mk_cmp op a b) as [p0|] eqn:Em; try discriminate. injection H as <- <-. split; auto.
+    destruct (negb (rel_check sc [(sel, root)] (is_eqne op) (OAttr v ch) r)); try discriminate.
+    destruct (toperand sc [(sel, root)] sel root st (OAttr v ch)) as [a st1| | |] eqn:E1; try discriminate.
+    destruct (toperand sc [(sel, root)] sel root st1 r) as [b st2| | |] eqn:E2; try discriminate.
+    assert (B1 := toperand_safe _ _ _ _ _ _ _ Hc1 E1). assert (B2 := toperand_safe _ _ _ _ _ _ _ Hc2 E2).
+    destruct (mk_cmp op a b) as [p0|] eqn:Em; try discriminate. injection H as <- <-.
     intros p1 Hp. injection Hp as <-. unfold mk_cmp in Em.
     destruct b as [|[]]; destruct op; try discriminate; injection Em as <-; simpl; rewrite ?B1; auto.
   - destruct ct as [| |cs|]; try discriminate. destruct it as [v ch| | |]; try discriminate.
     apply andb_true_iff in Hc. destruct Hc as [Hc1 Hc2].
     cbn [tcond] in H. unfold tcontains in H.
-    destruct (tattr sc [(sel, root)] root st v ch) as [a st1| | |] eqn:E1; try discriminate.
+    destruct (is_rel sc [(sel, root)] (OList cs) || is_rel sc [(sel, root)] (OAttr v ch)); try discriminate.
+    destruct (tattr sc sel root st v ch) as [a st1| | |] eqn:E1; try discriminate.
     injection H as <- <-.
-    destruct (toperand_safe sc sel root (OAttr v ch) st a st1 Hs Hc1 E1) as [S1 B1]. split; auto.
+    assert (B1 := toperand_safe sc sel root (OAttr v ch) st a st1 Hc1 E1).
     intros p0 Hp. injection Hp as <-. simpl. rewrite B1. now apply unbindable_scalars.
   - apply andb_true_iff in Hc. destruct Hc as [Hc1 Hc2]. cbn [tcond] in H.
-    destruct (tcond sc [(sel, root)] root st p1) as [a st1| | |] eqn:E1; try discriminate.
-    destruct (tcond sc [(sel, root)] root st1 q1) as [b st2| | |] eqn:E2; try discriminate.
-    injection H as <- <-. destruct (IH1 _ _ _ Hs Hc1 E1) as [S1 B1]. destruct (IH2 _ _ _ S1 Hc2 E2) as [S2 B2].
-    split; auto. intros p0 Hp. destruct a, b; simpl in Hp; try discriminate; injection Hp as <-; simpl;
+    destruct (tcond sc [(sel, root)] sel root st p1) as [a st1| | |] eqn:E1; try discriminate.
+    destruct (tcond sc [(sel, root)] sel root st1 q1) as [b st2| | |] eqn:E2; try discriminate.
+    injection H as <- <-. assert (B1 := IH1 _ _ _ Hc1 E1). assert (B2 := IH2 _ _ _ Hc2 E2).
+    intros p0 Hp. destruct a, b; simpl in Hp; try discriminate; injection Hp as <-; simpl;
       rewrite ?(B1 _ eq_refl), ?(B2 _ eq_refl); auto.
   - apply andb_true_iff in Hc. destruct Hc as [Hc1 Hc2]. cbn [tcond] in H.
-    destruct (tcond sc [(sel, root)] root st p1) as [a st1| | |] eqn:E1; try discriminate.
-    destruct (tcond sc [(sel, root)] root st1 q1) as [b st2| | |] eqn:E2; try discriminate.
-    injection H as <- <-. destruct (IH1 _ _ _ Hs Hc1 E1) as [S1 B1]. destruct (IH2 _ _ _ S1 Hc2 E2) as [S2 B2].
-    split; auto. intros p0 Hp. destruct a, b; simpl in Hp; try discriminate; injection Hp as <-; simpl;
+    destruct (tcond sc [(sel, root)] sel root st p1) as [a st1| | |] eqn:E1; try discriminate.
+    destruct (tcond sc [(sel, root)] sel root st1 q1) as [b st2| | |] eqn:E2; try discriminate.
+    injection H as <- <-. assert (B1 := IH1 _ _ _ Hc1 E1). assert (B2 := IH2 _ _ _ Hc2 E2).
+    intros p0 Hp. destruct a, b; simpl in Hp; try discriminate; injection Hp as <-; simpl;
       rewrite ?(B1 _ eq_refl), ?(B2 _ eq_refl); auto.
 Qed.
 
@@ -496,10 +500,10 @@ Proof.
   repeat (apply andb_true_iff in Hf; destruct Hf as [Hf ?]).
   rename H1 into Hshape. apply Z.eqb_eq in Hf.
   unfold translate in Ht. rewrite Ev, Ec, <- Hf in Ht. simpl assoc in Ht. rewrite Z.eqb_refl in Ht.
-  destruct (tcond sc [(v, root)] root jm0 c) as [p st| | |] eqn:Et; try discriminate.
+  destruct (tcond sc [(v, root)] v root jm0 c) as [p st| | |] eqn:Et; try discriminate.
   injection Ht as <-.
-  destruct (tcond_safe sc v root c jm0 p st (conj eq_refl eq_refl) Hshape Et) as [[_ S2] B].
-  unfold sem_res, sem. cbn [s_invalid s_where s_joins s_root]. rewrite S2.
+  assert (B := tcond_safe sc v root c jm0 p st Hshape Et).
+  unfold sem_res, sem. cbn [s_invalid s_where s_joins s_root].
   assert (Hb : match p with Some p0 => pred_bad p0 | None => false end = false).
   { destruct p; auto. }
   rewrite Hb. cbn [orb]. unfold encode at 2. rewrite Hi. cbn [map]. rewrite envs_of_nil.
@@ -522,46 +526,138 @@ Theorem the_agree sc q w s :
 Proof. intros H1 H2. now rewrite (agree sc q w s H1 H2). Qed.
 
 (* ---------- node kinds the translator does not know are never answered ---------- *)
-Lemma tcond_not sc vars root c : has_not c = true -> forall st p st', tcond sc vars root st c <> ROk p st'.
+Lemma tcond_not sc vars sel root c : has_not c = true -> forall st p st', tcond sc vars sel root st c <> ROk p st'.
 Proof.
   induction c as [op l r|ct it|p1 IH1 q1 IH2|p1 IH1 q1 IH2|p1 _|x]; intros Hn st p st'; simpl in Hn; try discriminate.
-  - cbn [tcond]. destruct (tcond sc vars root st p1) as [a st1| | |] eqn:E1; try discriminate.
+  - cbn [tcond]. destruct (tcond sc vars sel root st p1) as [a st1| | |] eqn:E1; try discriminate.
     destruct (has_not p1) eqn:N1; [exfalso; eapply IH1; eauto|]. simpl in Hn.
-    destruct (tcond sc vars root st1 q1) as [b st2| | |] eqn:E2; try discriminate. exfalso; eapply IH2; eauto.
-  - cbn [tcond]. destruct (tcond sc vars root st p1) as [a st1| | |] eqn:E1; try discriminate.
+    destruct (tcond sc vars sel root st1 q1) as [b st2| | |] eqn:E2; try discriminate. exfalso; eapply IH2; eauto.
+  - cbn [tcond]. destruct (tcond sc vars sel root st p1) as [a st1| | |] eqn:E1; try discriminate.
     destruct (has_not p1) eqn:N1; [exfalso; eapply IH1; eauto|]. simpl in Hn.
-    destruct (tcond sc vars root st1 q1) as [b st2| | |] eqn:E2; try discriminate. exfalso; eapply IH2; eauto.
+    destruct (tcond sc vars sel root st1 q1) as [b st2| | |] eqn:E2; try discriminate. exfalso; eapply IH2; eauto.
 Qed.
 Theorem not_never_answered sc q c : q_cond q = Some c -> has_not c = true -> forall s, translate sc q <> TOk s.
 Proof.
   intros Hc Hn s. unfold translate. rewrite Hc. destruct (assoc (q_sel q) (q_vars q)); try discriminate.
-  destruct (tcond sc (q_vars q) z jm0 c) eqn:E; try discriminate. exfalso. eapply tcond_not; eauto.
+  destruct (tcond sc (q_vars q) (q_sel q) z jm0 c) eqn:E; try discriminate. exfalso. eapply tcond_not; eauto.
 Qed.
-Lemma top_not_rejected sc vars root st c : tcond sc vars root st (CNot c) = RReject.
-Proof. reflexivity. Qed.
 
-(* every query of the fragment whose selected type has an instance is accepted *)
-Theorem f07_accepted sc q w v root :
-  f07 sc q w = true -> q_vars q = [(v, root)] -> instances sc w root <> [] -> exists s, translate sc q = TOk s.
+(* ---------- the rejections introduced by the C07 fix: commits ---------- *)
+(* a single comparison / membership / truth test: the whole query is that atom *)
+Definition atom_query (q : query) (c : cond) : Prop := q_cond q = Some c.
+
+(* C07-a: an attribute of a variable other than the selected one, compared with a literal *)
+Theorem rejects_othervar sc q op v ch lit :
+  atom_query q (CCmp op (OAttr v ch) (OLit lit)) -> v <> q_sel q -> translate sc q = TReject.
 Proof.
-  intros Hf Ev Hne. unfold f07 in Hf. rewrite Ev in Hf.
+  intros Hc Hv. unfold translate. rewrite Hc. destruct (assoc (q_sel q) (q_vars q)) as [root|]; auto.
+  cbn [tcond]. unfold tcmp.
+  assert (E : teqjoin sc (q_vars q) root jm0 op (OAttr v ch) (OLit lit) = None) by (destruct op; reflexivity).
+  rewrite E. destruct (negb (rel_check sc (q_vars q) (is_eqne op) (OAttr v ch) (OLit lit))); auto.
+  unfold toperand, tattr. apply Z.eqb_neq in Hv. now rewrite Hv.
+Qed.
+(* the same inside any operand position: translate_attribute itself refuses *)
+Theorem tattr_othervar sc sel root st v ch : v <> sel -> tattr sc sel root st v ch = RReject.
+Proof. intros Hv. unfold tattr. apply Z.eqb_neq in Hv. now rewrite Hv. Qed.
+
+(* C07-c: a relationship-valued operand against a plain literal, whatever the operator *)
+Theorem rejects_rel_literal sc q op v ch lit :
+  atom_query q (CCmp op (OAttr v ch) (OLit lit)) -> is_rel sc (q_vars q) (OAttr v ch) = true ->
+  translate sc q = TReject.
+Proof.
+  intros Hc Hr. unfold translate. rewrite Hc. destruct (assoc (q_sel q) (q_vars q)) as [root|]; auto.
+  cbn [tcond]. unfold tcmp.
+  assert (E : teqjoin sc (q_vars q) root jm0 op (OAttr v ch) (OLit lit) = None) by (destruct op; reflexivity).
+  rewrite E. unfold rel_check. rewrite Hr. cbn [is_rel is_var negb orb andb]. reflexivity.
+Qed.
+Theorem rejects_rel_in_list sc q v ch cs :
+  atom_query q (CContains (OList cs) (OAttr v ch)) -> is_rel sc (q_vars q) (OAttr v ch) = true ->
+  translate sc q = TReject.
+Proof.
+  intros Hc Hr. unfold translate. rewrite Hc. destruct (assoc (q_sel q) (q_vars q)) as [root|]; auto.
+  cbn [tcond]. unfold tcontains. rewrite Hr. cbn [is_rel orb]. reflexivity.
+Qed.
+
+(* C07-g: an attribute-equality join of two different variables whose join target is the selected type itself *)
+Theorem rejects_selfjoin sc q v1 ch1 v2 ch2 root a1 a2 t1 t2 :
+  atom_query q (CCmp OEq (OAttr v1 ch1) (OAttr v2 ch2)) -> v1 <> v2 ->
+  assoc (q_sel q) (q_vars q) = Some root -> assoc v1 (q_vars q) = Some root -> assoc v2 (q_vars q) = Some root ->
+  last_of ch1 = Some a1 -> last_of ch2 = Some a2 ->
+  field_kind sc root a1 = Some (FRel t1) -> field_kind sc root a2 = Some (FRel t2) ->
+  translate sc q = TReject.
+Proof.
+  intros Hc Hv Hs H1 H2 L1 L2 K1 K2. unfold translate. rewrite Hc, Hs. cbn [tcond]. unfold tcmp, teqjoin.
+  apply Z.eqb_neq in Hv. rewrite Hv, H1, H2, L1, L2, K1, K2. rewrite Z.eqb_refl. cbn [orb].
+  unfold related. rewrite Z.eqb_refl. reflexivity.
+Qed.
+
+(* C07-f: an ordering comparison against the literal None *)
+Theorem rejects_none_order sc q op v ch :
+  atom_query q (CCmp op (OAttr v ch) (OLit VNull)) -> is_eqne op = false -> forall s, translate sc q <> TOk s.
+Proof.
+  intros Hc Ho s. unfold translate. rewrite Hc. destruct (assoc (q_sel q) (q_vars q)) as [root|]; try discriminate.
+  cbn [tcond]. unfold tcmp.
+  assert (E : teqjoin sc (q_vars q) root jm0 op (OAttr v ch) (OLit VNull) = None) by (destruct op; reflexivity).
+  rewrite E. destruct (negb (rel_check sc (q_vars q) (is_eqne op) (OAttr v ch) (OLit VNull))); try discriminate.
+  destruct (toperand sc (q_vars q) (q_sel q) root jm0 (OAttr v ch)) as [a st1| | |]; try discriminate.
+  cbn [toperand]. destruct op; try discriminate; cbn [mk_cmp]; discriminate.
+Qed.
+
+(* ---------- every query of the right shape is accepted (a purely syntactic fact) ---------- *)
+Lemma twalk_total sc chain : forall st cur c, chain_kind sc c chain = Some FScalar ->
+  exists i a st', twalk sc st cur c chain = ROk (SCol i a) st'.
+Proof.
+  induction chain as [|a rest IH]; intros st cur c H; simpl in H; try discriminate. simpl.
+  destruct (field_kind sc c a) as [[|tgt]|]; try discriminate.
+  - destruct rest; try discriminate. eauto.
+  - destruct rest as [|b rest']; try discriminate.
+    destruct (alias_for st cur a tgt) as [i st1]. apply IH. exact H.
+Qed.
+Lemma toperand_total sc sel root x st : operand_shape sc sel root x = true ->
+  exists e st', toperand sc [(sel, root)] sel root st x = ROk e st' /\ e <> SConst VNull.
+Proof.
+  intros H. destruct x as [v ch|c| |]; try discriminate.
+  - destruct (shape_attr sc sel root v ch H) as [E1 E2]. unfold toperand, tattr. rewrite E1.
+    destruct (twalk_total sc ch st 0%nat root E2) as [i [a [st' T]]]. rewrite T. exists (SCol i a), st'. split; auto. discriminate.
+  - simpl in H. exists (SConst c), st. split; auto. intros E. injection E as ->. discriminate.
+Qed.
+Lemma tcond_total sc sel root c : cond_shape sc sel root c = true ->
+  forall st, exists p st', tcond sc [(sel, root)] sel root st c = ROk (Some p) st'.
+Proof.
+  induction c as [op l r|ct it|p1 IH1 q1 IH2|p1 IH1 q1 IH2|p1 _|x]; intros Hc st; cbn [cond_shape] in Hc; try discriminate.
+  - destruct l as [v ch| | |]; try discriminate. apply andb_true_iff in Hc. destruct Hc as [Hc1 Hc2].
+    cbn [tcond]. unfold tcmp. rewrite (teqjoin_none sc sel root st op v ch r Hc1 Hc2), (rel_check_shape sc sel root _ _ _ Hc1 Hc2).
+    cbn [negb]. destruct (toperand_total sc sel root _ st Hc1) as [a [st1 [T1 _]]]. rewrite T1.
+    destruct (toperand_total sc sel root _ st1 Hc2) as [b [st2 [T2 N2]]]. rewrite T2, (mk_cmp_some _ _ _ N2). eauto.
+  - destruct ct as [| |cs|]; try discriminate. destruct it as [v ch| | |]; try discriminate.
+    apply andb_true_iff in Hc. destruct Hc as [Hc1 Hc2]. cbn [tcond]. unfold tcontains.
+    rewrite (shape_not_rel sc sel root _ Hc1). cbn [is_rel orb].
+    destruct (toperand_total sc sel root _ st Hc1) as [a [st1 [T1 _]]]. cbn [toperand] in T1. rewrite T1. eauto.
+  - apply andb_true_iff in Hc. destruct Hc as [Hc1 Hc2]. cbn [tcond].
+    destruct (IH1 Hc1 st) as [a [st1 T1]]. rewrite T1. destruct (IH2 Hc2 st1) as [b [st2 T2]]. rewrite T2. simpl. eauto.
+  - apply andb_true_iff in Hc. destruct Hc as [Hc1 Hc2]. cbn [tcond].
+    destruct (IH1 Hc1 st) as [a [st1 T1]]. rewrite T1. destruct (IH2 Hc2 st1) as [b [st2 T2]]. rewrite T2. simpl. eauto.
+Qed.
+Theorem f07_accepted sc q w : f07 sc q w = true -> exists s, translate sc q = TOk s.
+Proof.
+  intros Hf. unfold f07 in Hf. destruct (q_vars q) as [|[v root] [|]] eqn:Ev; try discriminate.
   destruct (q_cond q) as [c|] eqn:Ec; try discriminate.
   repeat (apply andb_true_iff in Hf; destruct Hf as [Hf ?]).
-  rename H into Hall, H0 into Hnd, H1 into Hshape. apply Z.eqb_eq in Hf.
-  destruct (instances sc w root) as [|o rest] eqn:Ei; [now destruct Hne|].
-  rewrite forallb_forall in Hall.
-  destruct (tcond_ok sc w o v root c jm0 [row_of o] inv_jm0 eq_refl Hshape (Hall o (or_introl eq_refl)))
-    as [p0 [st' [more [b [T _]]]]].
+  rename H1 into Hshape. apply Z.eqb_eq in Hf.
+  destruct (tcond_total sc v root c Hshape jm0) as [p [st T]].
   unfold translate. rewrite Ev, Ec, <- Hf. simpl assoc. rewrite Z.eqb_refl, T. eauto.
 Qed.
 
-(* ---------- witnesses outside F07 (each replayed on the implementation: corpus/C07/kf_*.json) ---------- *)
+(* ---------- witnesses (each replayed on the implementation: corpus/C07/*.json) ---------- *)
 Module Wit.
-  (* classes: 1 Position(x=3,y=4)  3 Orientation(w=6)  4 Pose(position=7 -> 1, orientation=8 -> 3)  5 Body(name=1) *)
+  (* classes: 1 Position(x=3,y=4)  3 Orientation(w=6)  4 Pose(position=7 -> 1, orientation=8 -> 3)  5 Body(name=1,size=9)
+              8 FixedConnection(parent=10 -> 5, child=11 -> 5)  9 PrismaticConnection(parent, child) *)
   Definition sc : schema :=
     {| sc_fields := [(1, [(3, FScalar); (4, FScalar)]); (3, [(6, FScalar)]);
-                     (4, [(7, FRel 1); (8, FRel 3)]); (5, [(1, FScalar)])];
-       sc_sub := [(1, 1); (3, 3); (4, 4); (5, 5)] |}.
+                     (4, [(7, FRel 1); (8, FRel 3)]); (5, [(1, FScalar); (9, FScalar)]);
+                     (8, [(10, FRel 5); (11, FRel 5)]); (9, [(10, FRel 5); (11, FRel 5)])];
+       sc_sub := [(1, 1); (3, 3); (4, 4); (5, 5); (8, 8); (9, 9)] |}.
+  Definition body1 : list Z := [66; 111; 100; 121; 49].   (* "Body1" *)
   Definition w : world :=
     [ {| o_key := 1; o_cls := 1; o_fields := [(3, VInt 1); (4, VInt 0)] |};
       {| o_key := 2; o_cls := 1; o_fields := [(3, VInt 0); (4, VInt 3)] |};
@@ -569,23 +665,37 @@ Module Wit.
       {| o_key := 4; o_cls := 3; o_fields := [(6, VInt 1)] |};
       {| o_key := 5; o_cls := 4; o_fields := [(7, VRef 1); (8, VRef 3)] |};
       {| o_key := 6; o_cls := 4; o_fields := [(7, VRef 2); (8, VRef 4)] |};
-      {| o_key := 7; o_cls := 5; o_fields := [(1, VStr [66; 111; 100; 121; 49])] |} ].   (* "Body1" *)
+      {| o_key := 7; o_cls := 5; o_fields := [(1, VStr body1); (9, VInt 1)] |};
+      {| o_key := 8; o_cls := 5; o_fields := [(1, VStr body1); (9, VInt 1)] |};       (* equal to 7 by value *)
+      {| o_key := 9; o_cls := 5; o_fields := [(1, VStr [98]); (9, VInt 2)] |};        (* "b" *)
+      {| o_key := 10; o_cls := 8; o_fields := [(10, VRef 7); (11, VRef 8)] |};
+      {| o_key := 11; o_cls := 8; o_fields := [(10, VRef 7); (11, VRef 9)] |};
+      {| o_key := 12; o_cls := 9; o_fields := [(10, VRef 9); (11, VRef 7)] |} ].
   Definition mk (the : bool) (vars : list (Z * Z)) (c : cond) : query :=
     {| q_the := the; q_sel := 1; q_vars := vars; q_cond := Some c |}.
-  (* entity(p, q.x >= 1), p q : Position *)
-  Definition q_othervar := mk false [(1, 1); (2, 1)] (CCmp OGe (OAttr 2 [3]) (OLit (VInt 1))).
-  (* entity(o, o.w != 1) and entity(o, o.w < 0) *)
+  (* open: entity(o, o.w != 1) and entity(o, o.w < 0) *)
   Definition q_null_ne := mk false [(1, 3)] (CCmp ONe (OAttr 1 [6]) (OLit (VInt 1))).
   Definition q_null_lt := mk false [(1, 3)] (CCmp OLt (OAttr 1 [6]) (OLit (VInt 0))).
-  (* entity(s, s.position == 2) *)
+  (* open: entity(b, b.name) *)
+  Definition q_strtruth := mk false [(1, 5)] (CTruth (OAttr 1 [1])).
+  (* open: entity(f, and_(f.parent == pc.child, f.child == pc.parent)) *)
+  Definition q_eqjoin_twice := mk false [(1, 8); (2, 9)]
+    (CAnd (CCmp OEq (OAttr 1 [10]) (OAttr 2 [11])) (CCmp OEq (OAttr 1 [11]) (OAttr 2 [10]))).
+  Definition q_eqjoin_once := mk false [(1, 8); (2, 9)] (CCmp OEq (OAttr 1 [10]) (OAttr 2 [11])).
+  (* open: entity(f, f.parent == f.child) *)
+  Definition q_valueeq := mk false [(1, 8)] (CCmp OEq (OAttr 1 [10]) (OAttr 1 [11])).
+  (* repaired: entity(p, q.x >= 1), p q : Position *)
+  Definition q_othervar := mk false [(1, 1); (2, 1)] (CCmp OGe (OAttr 2 [3]) (OLit (VInt 1))).
+  (* repaired: entity(s, s.position == 2) *)
   Definition q_fk := mk false [(1, 4)] (CCmp OEq (OAttr 1 [7]) (OLit (VInt 2))).
-  (* entity(b, contains(b.name, "body")) *)
+  (* repaired: entity(b, contains(b.name, "body")) and contains(b.name, "ody") *)
   Definition q_like := mk false [(1, 5)] (CContains (OAttr 1 [1]) (OLit (VStr [98; 111; 100; 121]))).
-  (* entity(s, s.position == p), p : Position *)
+  Definition q_like2 := mk false [(1, 5)] (CContains (OAttr 1 [1]) (OLit (VStr [111; 100; 121]))).
+  (* repaired: entity(s, s.position == p), p : Position *)
   Definition q_varop := mk false [(1, 4); (2, 1)] (CCmp OEq (OAttr 1 [7]) (OVar 2)).
-  (* entity(o, o.w < None) *)
+  (* repaired: entity(o, o.w < None) *)
   Definition q_noneorder := mk false [(1, 3)] (CCmp OLt (OAttr 1 [6]) (OLit VNull)).
-  (* entity(s, s.position == t.position), s t : Pose *)
+  (* repaired: entity(s, s.position == t.position), s t : Pose *)
   Definition q_selfjoin := mk false [(1, 4); (2, 4)] (CCmp OEq (OAttr 1 [7]) (OAttr 2 [7])).
   (* inside F07: entity(s, and_(s.position.x >= 1, or_(s.orientation.w == 1, s.position.y < s.position.x))) over poses with non-None w *)
   Definition w_ok : world :=
@@ -602,27 +712,28 @@ End Wit.
 Definition model_res (sc : schema) (q : query) (w : world) : option (res (list Z)) :=
   match translate sc q with TOk s => Some (sem_res s (encode sc w)) | _ => None end.
 
-Lemma refuted_othervar :
-  model_res Wit.sc Wit.q_othervar Wit.w = Some (Ok [1]) /\ answers Wit.sc Wit.q_othervar Wit.w = Ok [1; 2].
-Proof. split; vm_compute; reflexivity. Qed.
 Lemma refuted_null :
   (model_res Wit.sc Wit.q_null_ne Wit.w = Some (Ok []) /\ answers Wit.sc Wit.q_null_ne Wit.w = Ok [3]) /\
   (model_res Wit.sc Wit.q_null_lt Wit.w = Some (Ok []) /\ answers Wit.sc Wit.q_null_lt Wit.w = Err TypeErr).
 Proof. repeat split; vm_compute; reflexivity. Qed.
-Lemma refuted_fk_literal :
-  model_res Wit.sc Wit.q_fk Wit.w = Some (Ok [6]) /\ answers Wit.sc Wit.q_fk Wit.w = Ok [].
+Lemma refuted_strtruth :
+  model_res Wit.sc Wit.q_strtruth Wit.w = Some (Ok []) /\ answers Wit.sc Wit.q_strtruth Wit.w = Ok [7; 8; 9].
 Proof. split; vm_compute; reflexivity. Qed.
-Lemma refuted_like :
-  model_res Wit.sc Wit.q_like Wit.w = Some (Ok [7]) /\ answers Wit.sc Wit.q_like Wit.w = Ok [].
+Lemma refuted_eqjoin_twice :
+  model_res Wit.sc Wit.q_eqjoin_twice Wit.w = model_res Wit.sc Wit.q_eqjoin_once Wit.w /\
+  model_res Wit.sc Wit.q_eqjoin_twice Wit.w = Some (Ok [10; 11]) /\ answers Wit.sc Wit.q_eqjoin_twice Wit.w = Ok [11].
+Proof. repeat split; vm_compute; reflexivity. Qed.
+Lemma refuted_valueeq :
+  model_res Wit.sc Wit.q_valueeq Wit.w = Some (Ok []) /\ answers Wit.sc Wit.q_valueeq Wit.w = Ok [10].
 Proof. split; vm_compute; reflexivity. Qed.
-Lemma refuted_varoperand :
-  model_res Wit.sc Wit.q_varop Wit.w = Some (Err TypeErr) /\ answers Wit.sc Wit.q_varop Wit.w = Ok [5; 6].
-Proof. split; vm_compute; reflexivity. Qed.
-Lemma refuted_noneorder : translate Wit.sc Wit.q_noneorder = TCrash.
-Proof. vm_compute; reflexivity. Qed.
-Lemma refuted_selfjoin :
-  model_res Wit.sc Wit.q_selfjoin Wit.w = Some (Err TypeErr) /\ answers Wit.sc Wit.q_selfjoin Wit.w = Ok [5; 6].
-Proof. split; vm_compute; reflexivity. Qed.
+(* the repaired classes: now rejected, or answered as in memory *)
+Lemma fixed_witnesses :
+  translate Wit.sc Wit.q_othervar = TReject /\ translate Wit.sc Wit.q_fk = TReject /\
+  translate Wit.sc Wit.q_varop = TReject /\ translate Wit.sc Wit.q_noneorder = TReject /\
+  translate Wit.sc Wit.q_selfjoin = TReject /\
+  (model_res Wit.sc Wit.q_like Wit.w = Some (Ok []) /\ answers Wit.sc Wit.q_like Wit.w = Ok []) /\
+  (model_res Wit.sc Wit.q_like2 Wit.w = Some (Ok [7; 8]) /\ answers Wit.sc Wit.q_like2 Wit.w = Ok [7; 8]).
+Proof. repeat split; vm_compute; reflexivity. Qed.
 Lemma nonvacuous :
   f07 Wit.sc Wit.q_ok Wit.w_ok = true /\ model_res Wit.sc Wit.q_ok Wit.w_ok = Some (Ok [5]) /\
   answers Wit.sc Wit.q_ok Wit.w_ok = Ok [5].
